@@ -344,9 +344,17 @@ fn plan(seeds: &[u16]) -> Plan {
             "invite-vs-join"
         }
     };
+    // A slow writer at the head of the burst (OPER verifies an Argon2 hash under the state lock):
+    // everybody else queues behind it and is released at the same moment, which turns the
+    // nanosecond windows of check-then-act defects into milliseconds on the parallel engine.
+    let spare: Option<usize> = [3usize, 0, 2, 1].iter().copied().find(|c| !per_conn.iter().any(|(pc, _)| *pc == *c));
+    let slow_head = kind != "register-race" && spare.is_some() && s.chance(35);
     // global write order: random merge of the per-connection sequences
     let mut idx: Vec<usize> = vec![0; per_conn.len()];
     let mut burst = vec![];
+    if slow_head {
+        burst.push((spare.unwrap(), ["OPER op0 not-the-password", "OPER op0 operpw0"][s.pick(2)].to_string()));
+    }
     loop {
         let avail: Vec<usize> = (0..per_conn.len()).filter(|i| idx[*i] < per_conn[*i].1.len()).collect();
         if avail.is_empty() {
@@ -366,6 +374,12 @@ fn light(line: &str) -> Option<String> {
     match m.command.as_str() {
         "002" | "003" | "004" | "005" => None,
         // wall-clock dependent numerics: idle/sign-on time, creation time, topic time
+        // 312 after WHOWAS carries "Logged in at <wall clock>" instead of the server info
+        "312" if m.params.last().map_or(false, |t| t.starts_with("Logged in at")) => Some(format!(
+            "{} 312 {} (logged in at)",
+            m.source.clone().unwrap_or_default(),
+            m.params.get(1).cloned().unwrap_or_default()
+        )),
         "317" | "329" | "333" => Some(format!(
             "{} {} {}",
             m.source.clone().unwrap_or_default(),
@@ -989,8 +1003,161 @@ fn pipe_strat() -> impl Strategy<Value = PipeCase> {
     prop::collection::vec(any::<u16>(), 1500).prop_map(|seeds| PipeCase { seeds })
 }
 
+// ------------------------------------------------------------------------ (d) slow reader
+// One client pipelines commands with very long replies and does not read; its connection's
+// buffers fill up.  Everybody else must still be served (a handler that writes to a full socket
+// while it holds the state lock stops the whole server), and once the slow client reads again it
+// gets every reply, complete and in order.
+#[derive(Clone, Debug, Serialize, Deserialize)]
+pub struct SlowCase {
+    pub seeds: Vec<u16>,
+}
+
+fn slow_strat() -> impl Strategy<Value = SlowCase> {
+    prop::collection::vec(any::<u16>(), 8).prop_map(|seeds| SlowCase { seeds })
+}
+
+fn check_slow_reader(c: &SlowCase, st: &mut Stats) -> Result<(), Viol> {
+    let mut s = S::new(&c.seeds);
+    let seed = s.raw() as u64;
+    let cfg = CfgSpec::default();
+    let mut w = World::new(cfg.to_main_config(), seed);
+    w.duplex_cap = [8192usize, 16384, 65536][s.pick(3)];
+    let mut log: Vec<String> = vec![];
+    for i in 0..3 {
+        let c = w.connect();
+        w.send_line(c, &format!("NICK n{}", i));
+        w.send_line(c, &format!("USER u{} 0 * :Real n{}", i, i));
+        w.settle();
+        w.drain(c);
+    }
+    // reply sizes around the interesting thresholds (a reply is 2 + nchan lines for LIST,
+    // 2 * nchan for NAMES)
+    let nchan = [20usize, 60, 100, 124, 126, 127, 128, 130, 140, 200][s.pick(10)];
+    let mut i = 0;
+    while i < nchan {
+        let names: Vec<String> = (i..(i + 30).min(nchan)).map(|k| format!("#s{}", k)).collect();
+        w.send_line(1, &format!("JOIN {}", names.join(",")));
+        // keep reading while the (long) JOIN reply is produced
+        for _ in 0..6 {
+            w.settle();
+            w.drain(1);
+        }
+        i += 30;
+    }
+    let verb = ["LIST", "NAMES", "LIST #s0,#s1,#s2", "WHO *", "MOTD"][s.pick(5)];
+    let k = 5 + s.pick(40);
+    log.push(format!("c1 is on {} channels and pipelines {} x `{}` without reading (socket buffer {} bytes)", nchan, k, verb, w.duplex_cap));
+    let mut blob = String::new();
+    for _ in 0..k {
+        blob += verb;
+        blob += "\r\n";
+    }
+    w.send_bytes(1, blob.as_bytes());
+    w.settle();
+    // the others go on
+    let others = ["JOIN #alive", "PRIVMSG n2 :still alive?", "MODE #alive +m", "NICK n0x", "PRIVMSG n1 :wake up", "TOPIC #alive :yes"];
+    let mut sent = vec![];
+    for _ in 0..(2 + s.pick(3)) {
+        let l = others[s.pick(others.len())];
+        log.push(format!("c0 > {}", l));
+        w.send_line(0, l);
+        sent.push(l);
+    }
+    w.send_line(0, "PING stillhere");
+    w.send_line(2, "PING metoo");
+    w.settle();
+    w.settle();
+    let l0 = w.drain(0);
+    let l2 = w.drain(2);
+    for l in &l0 {
+        log.push(format!("c0 < {}", l));
+    }
+    for l in &l2 {
+        log.push(format!("c2 < {}", l));
+    }
+    let blocked = w.has_partial_output(1) || true;
+    let _ = blocked;
+    for p in crate::sim::take_panics() {
+        if let Some(t) = p.task {
+            return Err(Viol::new("C18.handler_abort", "panic:slow-reader", format!("handler of c{} aborted: {} at {}", t, p.msg, p.loc)).with_transcript(log.clone()));
+        }
+    }
+    let a0 = l0.iter().any(|l| l.contains(" PONG ") && l.ends_with(":stillhere"));
+    let a2 = l2.iter().any(|l| l.contains(" PONG ") && l.ends_with(":metoo"));
+    st.nontrivial(format!("{}|{}|{}|{}", verb, nchan, k.min(20), w.duplex_cap), || json!({"slow_client_pipelines": format!("{} x {}", k, verb), "channels": nchan, "socket_buffer": w.duplex_cap, "others_send": sent}));
+    if !a0 || !a2 {
+        return Err(Viol::new(
+            "C18.liveness",
+            format!("stalled:slow-reader:{}", verb.split(' ').next().unwrap_or("")),
+            format!(
+                "while c1 ({} channels) does not read the replies to {} pipelined `{}`, the server stopped answering {}",
+                nchan,
+                k,
+                verb,
+                if !a0 { "c0" } else { "c2" }
+            ),
+        )
+        .with_transcript(log));
+    }
+    // the slow client reads again: every reply arrives, complete and in order, then PING works
+    w.send_line(1, "PING awake");
+    let mut all: Vec<String> = vec![];
+    for _ in 0..20_000 {
+        w.settle();
+        let ls = w.drain(1);
+        let done = ls.iter().any(|l| l.contains(" PONG ") && l.ends_with(":awake"));
+        all.extend(ls);
+        if done {
+            break;
+        }
+    }
+    let end_code = match verb.split(' ').next().unwrap_or("") {
+        "LIST" => " 323 ",
+        "NAMES" => "",
+        "WHO" => " 315 ",
+        _ => " 376 ",
+    };
+    if !all.iter().any(|l| l.ends_with(":awake")) {
+        log.push(format!("-- c1 read {} lines but never got the PONG", all.len()));
+        return Err(Viol::new("C18.liveness", "stalled:slow-reader:self", "the slow client itself never gets the answer to its PING after it starts reading again".to_string()).with_transcript(log));
+    }
+    if !end_code.is_empty() {
+        let ends = all.iter().filter(|l| l.contains(end_code)).count();
+        if ends != k {
+            log.push(format!("-- c1 got {} end-of-reply lines for {} commands", ends, k));
+            return Err(Viol::new("C18.replies_complete", "slow-reader:replies-lost", format!("{} pipelined `{}` were answered with {} complete replies", k, verb, ends)).with_transcript(log));
+        }
+    }
+    if verb == "LIST" {
+        // each reply: 321, nchan x 322 (+ #alive when it exists), 323 - never interleaved
+        let mut count = 0usize;
+        let mut open = false;
+        for l in &all {
+            if l.contains(" 321 ") {
+                if open {
+                    return Err(Viol::new("C18.replies_in_order", "slow-reader:interleaved", "a LIST reply started inside another".to_string()).with_transcript(log));
+                }
+                open = true;
+                count = 0;
+            } else if l.contains(" 322 ") {
+                count += 1;
+            } else if l.contains(" 323 ") {
+                open = false;
+                if count < nchan {
+                    log.push(format!("-- a LIST reply has {} rows, the client is on {} channels", count, nchan));
+                    return Err(Viol::new("C18.replies_complete", "slow-reader:short-reply", format!("a LIST reply lists {} channels of {}", count, nchan)).with_transcript(log));
+                }
+            }
+        }
+    }
+    crate::sim::set_in_sim(false);
+    Ok(())
+}
+
 pub fn run(ctx: &RunCtx) -> Vec<PartOutcome> {
     vec![
+        explore_with(ctx, "slow_reader", ctx.tier.pick(800, 12_000), 24, slow_strat, check_slow_reader),
         explore_with(ctx, "bursts", ctx.tier.pick(2_000, 40_000), 24, burst_strat, check_burst),
         explore_with(ctx, "pipelines", ctx.tier.pick(1_500, 25_000), 300, pipe_strat, check_pipeline),
         explore_with(ctx, "bursts_parallel", ctx.tier.pick(1_000, 20_000), 12, burst_strat, check_burst_mt),
@@ -999,6 +1166,7 @@ pub fn run(ctx: &RunCtx) -> Vec<PartOutcome> {
 
 pub fn replay(part: &str, input: &Value) -> Option<Result<Result<(), Viol>, String>> {
     match part {
+        "slow_reader" => Some(replay_input::<SlowCase>(input, check_slow_reader)),
         "bursts" => Some(replay_input::<BurstCase>(input, check_burst)),
         "pipelines" => Some(replay_input::<PipeCase>(input, check_pipeline)),
         "bursts_parallel" => Some(replay_input::<BurstCase>(input, check_burst_mt)),
@@ -1143,6 +1311,17 @@ fn execute_mt(p: &Plan, workers: usize) -> Result<Option<RunInfo>, Viol> {
     artefacts.clear();
     if !mt_flush_queues(&mut w, &mut nick, &mark, "b", &mut artefacts) {
         return Ok(None);
+    }
+    // a connection the server has told it is closing (ERROR after QUIT, KILL, a fatal error) is
+    // part of the outcome as "closed": wait until the close has really happened
+    for c in 0..p.nconns {
+        let closing = w.conns[c].lines[mark[c].min(w.conns[c].lines.len())..].iter().any(|l| l.starts_with(&format!(":{} ERROR", SERVER_NAME)));
+        if closing && !w.conns[c].eof {
+            w.read_until(c, WAIT, &|_ls: &[String]| false);
+            if !w.conns[c].eof {
+                return Ok(None);
+            }
+        }
     }
     let mut raw: BTreeMap<usize, Vec<String>> = BTreeMap::new();
     for c in 0..p.nconns {
